@@ -6,7 +6,7 @@ SPEC = {
     "driver": "drv_c01c",
     "harness": "c01c",
     "theorems": ["C01_stream_any_chunking", "C01_stream_op_any_chunking", "C01_stream_write_layout",
-                 "C01_stream_readFull_any_chunking"],
+                 "C01_stream_op_write_layout", "C01_stream_in_place_any_chunking", "C01_stream_readFull_any_chunking"],
     "trusted_base": ["hand-written model Hive/Model/Stream.lean of serializer/stream/{read,write,byte_buffer}.go, tied by differential execution (harness/c01c, harness/c02/sx)",
                      "io.ReadFull / binary.Read / bytes.Buffer semantics as written down in the model (readFullAux, BB.write)",
                      "Go toolchain, compiled Lean driver"],
@@ -15,7 +15,7 @@ SPEC = {
                  "an io.Reader over a fixed byte string = data + list of chunk sizes (0-byte reads allowed, io.EOF at the end); readers that fail with other errors are not modelled",
                  "objectToBytes/objectFromBytes callbacks are the identity (plus typeutils.Uint64FromBytes/ByteArray32FromBytes on the reader side)"],
     "manifest": {
-        "text": "Stream part of C01: for every writer program over Write/WriteBytes/WriteBytesWithSize/WriteObject/WriteObjectWithSize/WriteCollection (all four prefix widths) whose writes succeed, and for EVERY chunking of the reader and every tail behind the written bytes, the mirrored reader calls return exactly the written values and consume exactly the written bytes (C01_stream_any_chunking). Model re-validated against the working tree on every run by differential execution through a chunking io.Reader (whole / 1-byte / prime-sized / random chunk lists) and an independent Go round-trip oracle.",
+        "text": "Stream part of C01: for every writer program over Write/WriteBytes/WriteBytesWithSize/WriteObject/WriteObjectWithSize/WriteCollection (all four prefix widths) whose writes succeed, and for EVERY chunking of the reader and every tail behind the written bytes, the mirrored reader calls return exactly the written values and consume exactly the written bytes (C01_stream_any_chunking); for EVERY ByteBuffer state (spare storage, rewound position) a writer program is one write of its encoding at the current position - WriteCollection's count patch returns directly behind the written elements (C01_stream_write_layout) - and data written in place reads back the same way (C01_stream_in_place_any_chunking). Model re-validated against the working tree on every run by differential execution through a chunking io.Reader (whole / 1-byte / prime-sized / random chunk lists) and an independent Go round-trip oracle.",
         "note": "Trusted: Lean kernel; model Hive/Model/Stream.lean (tie = differential execution); Go's io.ReadFull/binary.Read semantics as modelled.",
         "technique": "Lean 4 proof by induction over writer programs and chunk lists + differential correspondence",
     },
